@@ -235,6 +235,8 @@ def run_generic_op(op, model, world, pool, cur_cfg, res, log):
                     outcome = "rejected"
                     res.fault("invalid_param_fit")
                 model.set_params(**{name: old})
+        elif kind == "mutate_data" and not X.flags.writeable:
+            outcome = "skipped"
         elif kind == "mutate_data":
             # the user changes the contents of HIS array between two calls (same object, other values)
             if op["how"] == "scale":
@@ -245,9 +247,10 @@ def run_generic_op(op, model, world, pool, cur_cfg, res, log):
                 X[:] = X[::-1].copy()
             if A is not None:
                 from ..families import make_affinity
+                import numpy as np
                 c = dict(cur_cfg)
                 c["n"] = len(X)
-                A[:] = make_affinity(c, X)
+                A[:] = make_affinity(c, np.asarray(X, dtype=np.float64))
             res.fault("user_mutates_own_array")
     except SimFault:
         outcome = "crashed"
@@ -279,3 +282,26 @@ class devnull_stdout:
         import sys
         sys.stdout = self._old
         return False
+
+
+def apply_layout(values, layout):
+    """The caller's array in another memory layout / dtype (same values up to the float32 rounding)."""
+    import numpy as np
+    if layout == "F":
+        return np.asfortranarray(values.copy())
+    if layout == "strided":
+        big = np.full((2 * values.shape[0], values.shape[1] + 1), 7.5, dtype=values.dtype)
+        big[::2, :-1] = values
+        return big[::2, :-1]
+    if layout == "readonly":
+        X = values.copy()
+        X.flags.writeable = False
+        return X
+    if layout == "float32":
+        return values.astype(np.float32)
+    return values
+
+
+def sample_layouts(rng, k=2, float32=True):
+    kinds = [("C", 7), ("F", 1), ("strided", 1), ("readonly", 1)] + ([("float32", 1)] if float32 else [])
+    return [weighted(rng, kinds) for _ in range(k)]
